@@ -780,8 +780,19 @@ func (w *spWorld) chaosOp(st spStep) {
 	case "DelPeer":
 		_ = w.ss.s.DeletePeer(ctx, &api.DeletePeerRequest{Address: addr})
 	case "ResetBurst":
-		for i := 0; i < 3; i++ {
-			_ = w.ss.s.ResetPeer(ctx, &api.ResetPeerRequest{Address: addr, Communication: "verif"})
+		// the named neighbour if its session is up, else any neighbour whose session is up (the chaos
+		// operations are not part of the modelled state, so the choice is free)
+		target := addr
+		if st, _, _ := w.ss.peerState(addr); st != api.PeerState_SESSION_STATE_ESTABLISHED {
+			for _, sp := range w.peers {
+				if st, _, _ := w.ss.peerState(sp.addr.String()); st == api.PeerState_SESSION_STATE_ESTABLISHED {
+					target = sp.addr.String()
+					break
+				}
+			}
+		}
+		for i := 0; i < 5; i++ {
+			_ = w.ss.s.ResetPeer(ctx, &api.ResetPeerRequest{Address: target, Communication: "verif"})
 		}
 	case "AddPeer":
 		pi := w.pinfo[st.P]
